@@ -234,7 +234,7 @@ def run_tlc(module, cfg=None, env=None, workers=None, timeout=1800, extra=None, 
     for f in os.listdir(SPEC):
         if f.endswith((".tla", ".cfg")):
             shutil.copy(os.path.join(SPEC, f), d)
-    cmd = ["java", "-XX:+UseParallelGC", "-Xss512m", "-Xmx12g", "-Dfile.encoding=UTF-8", "-cp", TLA_CP, "tlc2.TLC",
+    cmd = ["java", "-XX:+UseParallelGC", "-Xss512m", "-Xmx8g", "-Dfile.encoding=UTF-8", "-cp", TLA_CP, "tlc2.TLC",
            "-workers", str(workers or NCPU), "-metadir", os.path.join(d, "meta"), "-noGenerateSpecTE"]
     if cfg:
         cmd += ["-config", cfg]
@@ -345,15 +345,21 @@ def materialise_and_judge(scs, tags="", l2=False):
                 x["kind"] = "mis"
                 mis.append(x)
         m0 = re.search(r"(\d+) distinct state", t["out"])
-        ntr = 0
+        ntr = nev = nhits = nhit1 = 0
         with open(joined) as fh:
             for line in fh:
                 rec = json.loads(line)
                 for u in rec["units"]:
-                    if u["opt"] == "":
+                    if u["opt"] in ("", "i"):
                         ntr += sum(1 for r in u["runs"] if "evs" in r and r["pn"] == "")
+                        for r in u["runs"]:
+                            for e in r.get("evs", []):
+                                nev += 1
+                                if e[0] == "hit":
+                                    nhits += 1
+                                    nhit1 += 1 if e[1] == 1 else 0
         info = dict(info, l2_states=t["states"], l2_distinct=t["distinct"], l2_traces=ntr, l2_wall=round(t["wall"], 1),
-                    l2_events=0)
+                    l2_events=nev, l2_memo_hits=nhits, l2_memo_hits_matched=nhit1)
     for m in mis:
         m["text"] = by_id[m["id"]]["text"]
     shutil.rmtree(work, ignore_errors=True)
@@ -385,9 +391,9 @@ def corpus_pipeline(family, n, sd, tags="", l2=False):
             with open(path) as fh:
                 return json.load(fh)
         scs, ginfo = generate(family, n, sd, evs=l2, conc=4 if tags == "racebatch" else 0)
-        if l2:      # event traces are validated for the default option set only
+        if l2:      # event traces are validated for the default option set and for -inline
             for s in scs:
-                s["optsets"] = [""]
+                s["optsets"] = ["", "i"] if "i" in s["optsets"] else [""]
         mis, stats, jinfo = materialise_and_judge(scs, tags, l2=l2)
         by_id = {s["id"]: s for s in scs}
         for m in mis:
@@ -562,7 +568,8 @@ def build_fe(variant="", frontend_src=None, tags=""):
             shutil.copy(os.path.join(VERIF, "harness", "fe", part + ".go.txt"), os.path.join(d, part + ".go"))
         with open(os.path.join(d, "go.mod"), "w") as fh:
             fh.write(f"module fe\n\ngo 1.25\n\nrequire github.com/pointlander/peg v0.0.0\n\nreplace github.com/pointlander/peg => {REPO}\n")
-        r = subprocess.run(["go", "build"] + (["-tags", tags] if tags else []) + ["-o", out + ".tmp", "."], cwd=d, env=go_env(), capture_output=True, text=True)
+        flags = ["-race"] if tags == "race" else (["-tags", tags] if tags else [])
+        r = subprocess.run(["go", "build"] + flags + ["-o", out + ".tmp", "."], cwd=d, env=go_env(), capture_output=True, text=True)
         if r.returncode != 0:
             raise Infra("building the front-end harness failed (does the change compile?):\n" + r.stdout + r.stderr)
         os.replace(out + ".tmp", out)
@@ -703,6 +710,35 @@ def sched_pipeline(n, sd, nrandom):
                    warned=sum(1 for x in stats if x["warned"]),
                    sample=dict(grammar=texts[usable[0]["id"] - 1].split("}\n\n", 1)[-1], schedule="".join(scheds[usable[0]["id"]][4]) if scheds[usable[0]["id"]][4:] else ""),
                    tlc=[dict(step="gen", wall=round(g["wall"], 1)), dict(step="judge", wall=round(j["wall"], 1))])
+        shutil.rmtree(work, ignore_errors=True)
+        os.makedirs(os.path.dirname(key), exist_ok=True)
+        with open(key, "w") as fh:
+            json.dump(res, fh)
+        return res
+
+
+def conc_compile(n, sd):
+    """C09: N independent trees compiled concurrently in one process, under the race detector."""
+    key = os.path.join(cache_dir(), f"conc_{n}_{sd}_{harness_hash()}.json")
+    with Lock("conc"):
+        if os.path.exists(key):
+            with open(key) as fh:
+                return json.load(fh)
+        scs, _ = generate("diag", n, sd)
+        scs2, _ = generate("switch", n, sd)
+        texts = [s["text"] for s in scs] + [s["text"] for s in scs2]
+        work = scratch("verif-conc-")
+        inp, outp = os.path.join(work, "in.ndjson"), os.path.join(work, "out.ndjson")
+        with open(inp, "w") as fh:
+            for i, t in enumerate(texts):
+                fh.write(json.dumps(dict(id=i + 1, text=t)) + "\n")
+        r = subprocess.run([build_fe("race", tags="race"), "-conc", "8", "-in", inp, "-out", outp], capture_output=True, text=True, timeout=3600,
+                           env=dict(os.environ, GORACE="halt_on_error=0"))
+        race = "DATA RACE" in r.stderr
+        if r.returncode not in (0, 66) or (r.returncode == 66 and not race):
+            raise Infra("concurrent compile harness failed:\n" + r.stderr[-2000:])
+        recs = read_ndjson(outp) if os.path.exists(outp) else []
+        res = dict(texts=len(texts), race=race, race_report=r.stderr[:3000] if race else "", recs=recs)
         shutil.rmtree(work, ignore_errors=True)
         os.makedirs(os.path.dirname(key), exist_ok=True)
         with open(key, "w") as fh:
